@@ -41,12 +41,18 @@ DATA_DIRS = ['/opt/graphite/storage/whisper', '/opt/graphite/storage/whisper/', 
 
 
 def _confined(encoded):
-  """Lexical confinement of a relative path: not absolute and no '.' at all (hence no '.'/'..' segment)."""
+  """Lexical confinement of a relative path below its base directory: not absolute, and walking its
+  '/'-separated segments never climbs above the base ('..' pops one level, '.' and '' stay)."""
   if encoded.startswith('/'):
     return False
-  for c in encoded:
-    if c == '.':
-      return False
+  depth = 0
+  for seg in encoded.split('/'):
+    if seg == '..':
+      depth -= 1
+      if depth < 0:
+        return False
+    elif seg != '' and seg != '.':
+      depth += 1
   return True
 
 
@@ -95,7 +101,7 @@ def C14_whisper_path(metric: str, di: int, hash_names: bool) -> bool:
   prefix = data_dir if data_dir.endswith('/') else data_dir + '/'
   if not path.startswith(prefix) or not path.endswith('.wsp'):
     return False
-  rest = path[len(prefix):-4]
+  rest = path[len(prefix):]
   return _confined(rest)
 
 
@@ -114,6 +120,84 @@ def replay_whisper_path(metric, di, hash_names):
   path = os.path.normpath(db.getFilesystemPath(metric))
   root = os.path.normpath(DATA_DIRS[di])
   return path.startswith(root + os.sep) and path.endswith('.wsp')
+
+
+class _FS(object):
+  """Records every path the database stats or renames (os / os.path stand-in for WhisperDatabase.exists)."""
+
+  def __init__(self, answers):
+    self.answers, self.touched, self.n = answers, [], 0
+
+  def exists(self, path):
+    self.touched.append(path)
+    ok = ((self.answers >> self.n) & 1) == 1
+    self.n += 1
+    return ok
+
+  def rename(self, src, dst):
+    self.touched.append(src)
+    self.touched.append(dst)
+
+
+def _exists_paths(dbmod, metric, di, hash_names, answers):
+  data_dir = pick(DATA_DIRS, di)
+  db = object.__new__(dbmod.WhisperDatabase)
+  db.data_dir, db.tag_hash_filenames = data_dir, hash_names
+  fs = _FS(answers)
+  old_exists, old_os = dbmod.exists, dbmod.os
+  dbmod.exists = fs.exists
+  dbmod.os = type('O', (), {'rename': staticmethod(fs.rename), 'makedirs': staticmethod(lambda p: fs.touched.append(p))})
+  try:
+    db.exists(metric)
+  finally:
+    dbmod.exists, dbmod.os = old_exists, old_os
+  cover('stated')
+  prefix = data_dir if data_dir.endswith('/') else data_dir + '/'
+  for p in fs.touched:
+    if not p.startswith(prefix) or not _confined(p[len(prefix):]):
+      raise AssertionError('exists(%r) touched %r outside %r' % (metric, p, data_dir))
+  return True
+
+
+def C14_exists_paths(metric: str, di: int, hash_names: bool, answers: int) -> bool:
+  """
+  pre: len(metric) <= 3
+  pre: 0 <= di < len(DATA_DIRS)
+  pre: 0 <= answers <= 3
+  post: __return__
+  """
+  return _exists_paths(DB, metric, di, hash_names, answers)
+
+
+def _deep_names():
+  out = []
+  for k in range(0, 9):
+    up = '/..' * k
+    out += ['a;b=x' + up + '/y', 'a' + up + '/y;b=c', up.lstrip('/') + '/z', 'a;b=' + '../' * k + 'w', '/' * k + 'q;t=v', 'n' + '..' * k + 'm',
+            '.' * k + 'p', ';' + up, 'a.b;c=d' + '.' * k]
+  return out
+
+
+DEEP = _deep_names()
+
+
+def C14_deep(ni: int, di: int, hash_names: bool) -> bool:
+  """
+  pre: 0 <= ni < len(DEEP)
+  pre: 0 <= di < len(DATA_DIRS)
+  post: __return__
+  """
+  # long crafted names with up to 8 '/..' segments, leading separators and dot runs, tagged and untagged:
+  # beyond the length the symbolic harnesses reach; real os.path.normpath decides
+  import os
+  name, data_dir = pick(DEEP, ni), pick(DATA_DIRS, di)
+  db = _db(data_dir, hash_names)
+  cover('mapped')
+  root = os.path.normpath(data_dir)
+  for p in (db.getFilesystemPath(name), db._getFilesystemPath(name, False), db._getFilesystemPath(name, True)):
+    if not os.path.normpath(p).startswith(root + os.sep):
+      raise AssertionError('%r maps to %r outside %r' % (name, p, data_dir))
+  return True
 
 
 def _segments_ok(name):
@@ -176,6 +260,13 @@ HARNESSES = [
     encodes=['carbon.database:WhisperDatabase.getFilesystemPath', 'carbon.database:WhisperDatabase._getFilesystemPath', 'carbon.util:TaggedSeries.encode'],
     assumptions=_ASSUME + ['carbon.database re-executed from its current source with a stub `whisper` module so that the real WhisperDatabase class body exists; '
                            'CeresDatabase: not definable (library absent)']),
+  H('C14_exists_paths', quick=dict(timeout=280, shards=[('d%d' % d, 'di == %d' % d) for d in range(len(DATA_DIRS))], extra_pre=['len(metric) <= 2']),
+    thorough=dict(timeout=900, shards=[('d%d' % d, 'di == %d' % d) for d in range(len(DATA_DIRS))]), covers=['stated'],
+    encodes=['carbon.database:WhisperDatabase.exists (incl. the TAG_HASH_FILENAMES migration rename)', 'carbon.database:WhisperDatabase._getFilesystemPath'],
+    assumptions=_ASSUME + ['os.path.exists / os.rename replaced by a recorder answering per symbolic bits: every path stat\'ed or renamed must be confined']),
+  H('C14_deep', quick=dict(timeout=280), covers=['mapped'],
+    encodes=['carbon.database:WhisperDatabase._getFilesystemPath', 'carbon.util:TaggedSeries.encode'],
+    assumptions=['%d crafted long names (symbolic index), real sha256 replaced by the stub, os.path.normpath decides' % len(DEEP)]),
   H('C14_injective', quick=dict(timeout=280, extra_pre=['len(a) <= 2 and len(b) <= 3']), thorough=dict(timeout=1500),
     covers=['compared'], replay='replay_injective', encodes=['carbon.util:TaggedSeries.encode'], assumptions=_ASSUME),
   H('C14_lookalikes', quick=dict(timeout=200), covers=['compared'], encodes=['carbon.util:TaggedSeries.encode'],
